@@ -192,12 +192,34 @@ def legacy_checksum_siblings(prog, res):
     res.need(R, 3)
 
 
+def legacy_stream_content_size(prog, res):
+    """T3 (cut): a legacy frame streamed through ZSTD_decompressStream ends with the same verdict on its content size as the one-shot
+    path gives (ZSTD_decompressMultiFrame compares for legacy frames too).  Every call of ZSTD_decompressLegacyStream in the
+    streaming decoder goes through the one wrapper that counts the output, and that wrapper returns a value that is not an error only
+    past the comparison of the count with the header's size (or on the edges where the frame is not finished / the size unknown)."""
+    R = "T3.cut"
+    users = sorted({f.name for f in prog.fns_in("decompress/zstd_decompress.c") if f.call_roots("ZSTD_decompressLegacyStream")})
+    if not users and not prog.has_fn("ZSTD_decompressLegacyStream_counted"):
+        return
+    res.check(users == ["ZSTD_decompressLegacyStream_counted"], R, "legacy-stream:one-counting-wrapper", "lib/decompress/zstd_decompress.c",
+              "ZSTD_decompressLegacyStream is only called by its counting wrapper", "ZSTD_decompressLegacyStream is called directly by %s: what those calls produce is not counted" % users)
+    w = prog.fn("ZSTD_decompressLegacyStream_counted")
+    gs = [g for g in guards.guard_sites(w) if "corruption_detected" in g.codes]
+    ok = bool(gs) and any({"f:legacyDecodedSize", "f:legacyExpectedSize"} <= (g.L | g.R) or ("f:legacyDecodedSize" in (g.L | g.R)) for g in gs)
+    acc = w.find_roots(lambda x: x.get("k") == "asg" and x.get("op") == "+=" and strip_casts(x["lhs"]).get("f") == "legacyDecodedSize")
+    res.check(ok and bool(acc) and w.must_pass(via_roots=acc, targets=guards.success_nodes(w)), R, "legacy-stream:content-size-at-frame-end", w.loc,
+              "the output of every legacy streaming call is counted and compared with the header's content size when the frame ends",
+              "the legacy streaming path no longer verifies the regenerated size: a v0.7 frame whose header announces 41 bytes for 40 bytes of content is decoded with "
+              "success by ZSTD_decompressStream, where ZSTD_decompress answers corruption_detected")
+
+
 def run(tier):
     res = Result("C09", tier)
     tus, info = extract(["decompress", "compress", "legacy"])
     prog = Program(tus)
     res.info = info
     legacy_checksum_siblings(prog, res)
+    legacy_stream_content_size(prog, res)
     R = "T3.cut"
 
     # ---- ZSTD_decompressFrame -----------------------------------------------------------
